@@ -14,6 +14,16 @@ Cases
   {"op":"enc","ty":T,"val":I,"explicit":I,"relaxed":b,"hdr":b,"valid":b}
   {"op":"dec","ty":T,"hex":h,"hdr":b,"ext":[hex..],"extkind":["zeros"|"junk"..],"complete":b,"expect":null|"rejected","how":..}
   {"op":"xrev","tyW":T,"tyR":T',"val":I,"hdr":b}
+  {"op":"seq","hdr":false,"prebuild":b,"steps":[enc / dec case + {"slot":k,"nm":N}..],"muts":[..]}
+        a HISTORY within one process over several DIFFERENT types that share one full name and version and whose bit
+        length sets the library's approximate `==` cannot tell apart (fields / variants permuted, same-width leaves of
+        another kind, renamed fields, other bodies of a delimited type): slot k is one pydsdl object, used by every
+        step naming it; N = null | {"p":prefix,"perm":[..]} names field i  prefix + str(perm[i])  (one injective map
+        for the whole type tree, so that equality of names is equality of indices).  Every step is judged exactly as
+        if it stood alone, and must give what a freshly built, uniquely named structural twin gives.
+  a "dec" case may carry "alts":[hex..],"altkind":["zerofill"..]: complete byte strings that must decode like "hex"
+        ("zerofill": a delimiter header announces a payload that ends early, followed by foreign non-zero data, vs the
+        same payload explicitly filled up with zeros), and "want": the canonical value a reference encoding denotes.
 
 Oracles (independent of the model and of the library's algorithm)
   C06  expected canonical value by plain integer / rational arithmetic (cast modes, defaults); expected bytes by a
@@ -21,8 +31,11 @@ Oracles (independent of the model and of the library's algorithm)
        type's bit_length_set (min/max, residues, expansion when small).
   C07  only SerDesError/ValueError; decoded value is a fixed point of serialize/deserialize; representation + junk and
        b + zero bytes decode like b (the latter unless a DelimiterHeaderError is involved); sabotaged length prefixes /
-       tags / headers are rejected.
+       tags / headers are rejected; a delimited object (nested at any depth, or the top-level one) whose header ends its
+       payload early decodes - whatever foreign data follows - like the same object with the missing part written out
+       as zeros, and bytes behind such a representation are ignored.
   C14  deserialize(C[D'], serialize(C[D], v)) == adapt(v) computed structurally.
+  seq  (all three) every step as above, independent of the history; plus: same outcome as on a fresh structural twin.
 """
 from __future__ import annotations
 
@@ -113,6 +126,19 @@ def t_depth(ty) -> int:
     return 1 + max([0] + [t_depth(f) for f in ty[1]])
 
 
+def t_cost(ty) -> int:
+    """Upper estimate of the number of codec steps one value of the type can take (guards the generator: the bit size
+    says nothing about arrays of empty composites)."""
+    k = ty[0]
+    if k in PRIMS:
+        return 1
+    if k in ("farr", "varr"):
+        return 1 + ty[2] * t_cost(ty[1])
+    if k == "struct":
+        return 1 + sum(t_cost(f) for f in ty[1])
+    return 1 + max(t_cost(f) for f in ty[1])
+
+
 def t_walk(ty):
     yield ty
     k = ty[0]
@@ -175,6 +201,93 @@ def build(ty):
         _types.clear()
     _types[key] = r
     return r
+
+
+def build_named(ty, gname: str, nm=None, path: str = ""):
+    """A FRESH pydsdl object for the description (never cached): the composite at position `path` of the tree is called
+    ns.<gname><path>, its fields are named by nm.  Two descriptions built with one gname therefore share full name and
+    version at every position - look-alikes whenever the library's approximate bit length set equality agrees."""
+    P = common.import_pydsdl()
+    k = ty[0]
+    if k in PRIMS:
+        return build(ty)
+    if k == "farr":
+        return P.FixedLengthArrayType(build_named(ty[1], gname, nm, path + "e"), ty[2])
+    if k == "varr":
+        return P.VariableLengthArrayType(build_named(ty[1], gname, nm, path + "e"), ty[2])
+    attrs = []
+    for i, f in enumerate(ty[1]):
+        if f[0] == "void":
+            attrs.append(P.PaddingField(build(f)))
+        else:
+            attrs.append(P.Field(build_named(f, gname, nm, "%s_%d" % (path, i)), fname(i, nm)))
+    name = gname + path
+    cls = P.StructureType if k == "struct" else P.UnionType
+    r = cls(name="ns." + name, version=P.Version(1, 0), attributes=attrs, deprecated=False, fixed_port_id=None,
+            source_file_path=Path("ns") / (name + ".1.0.dsdl"), has_parent_service=False)
+    if ty[2] is not None:
+        r = P.DelimitedType(r, ty[2])
+    return r
+
+
+# ------------------------------------------------------------------------------------------- own bit length sets (small types)
+
+class TooBig(Exception):
+    pass
+
+
+def own_bls(ty, limit: int = 3000) -> typing.Set[int]:
+    """The bit length set of a small type by plain set arithmetic (used by the generator only, to pick types that the
+    library's approximate equality - same min, max and residues modulo 32 - cannot tell apart)."""
+    k = ty[0]
+
+    def chk(x):
+        if len(x) > limit:
+            raise TooBig()
+        return x
+
+    if k in PRIMS:
+        return {prim_bits(ty)}
+    if k in ("farr", "varr"):
+        e = own_bls(ty[1], limit)
+        if ty[2] > 300:
+            raise TooBig()
+        acc = {0}
+        out = set()
+        for i in range(ty[2] + 1):
+            if k == "varr":
+                out |= {len_bits(ty[2]) + x for x in acc}
+                chk(out)
+            if i < ty[2]:
+                acc = chk({x + y for x in acc for y in e})
+        return out if k == "varr" else acc
+    if ty[2] is not None:
+        if ty[2] // 8 > limit:
+            raise TooBig()
+        return {32 + 8 * i for i in range(ty[2] // 8 + 1)}
+    if k == "struct":
+        acc = {0}
+        for f in ty[1]:
+            a = t_align(f)
+            fb = own_bls(f, limit)
+            acc = chk({x + pad(x, a) + y for x in acc for y in fb})
+        return {x + pad(x, 8) for x in acc}
+    tb = tag_bits(len(ty[1]))
+    out = set()
+    for f in ty[1]:
+        out |= {tb + y + pad(tb + y, 8) for y in own_bls(f, limit)}
+        chk(out)
+    return out
+
+
+def eq_key(ty):
+    """What pydsdl's SerializableType.__eq__ looks at besides class and name (None = too big to tell here)."""
+    try:
+        b = own_bls(ty)
+    except TooBig:
+        return None
+    cls = "delimited" if ty[0] in ("struct", "union") and ty[2] is not None else ty[0]
+    return [cls, min(b), max(b), sorted({x % 32 for x in b})]
 
 
 # ------------------------------------------------------------------------------------------- floats, exact
@@ -443,7 +556,8 @@ def ref_encode(ty, c, acc: Acc, strip_header: bool = False, depth: int = 0):
         e = ty[1]
         items = list(bytes.fromhex(c["x"])) if isinstance(c, dict) else c
         if k == "varr":
-            acc.marks.append({"kind": "len", "at": acc.n, "w": len_bits(ty[2]), "cap": ty[2], "depth": depth})
+            acc.marks.append({"kind": "len", "at": acc.n, "w": len_bits(ty[2]), "cap": ty[2], "depth": depth, "n": len(items),
+                              "eprim": prim_bits(e) if e[0] in PRIMS else 0, "anc": []})
             acc.put(len(items), len_bits(ty[2]))
         for x in items:
             ref_encode(e, x, acc, depth=depth)
@@ -452,13 +566,16 @@ def ref_encode(ty, c, acc: Acc, strip_header: bool = False, depth: int = 0):
             inner = Acc()
             ref_encode([k, ty[1], None], c, inner, depth=depth + 1)
             body = inner.bytes()
-            acc.marks.append({"kind": "hdr", "at": acc.n, "w": 32, "size": len(body), "depth": depth})
+            hdr_idx = len(acc.marks)
+            acc.marks.append({"kind": "hdr", "at": acc.n, "w": 32, "size": len(body), "depth": depth, "anc": []})
             acc.put(len(body), 32)
             base = acc.n
             for m in inner.marks:
                 m = dict(m)
                 m["at"] += base
                 m["win"] = m["win"] + base if "win" in m else base + 8 * len(body)
+                # indices (in acc.marks) of the enclosing delimiter headers, outermost first
+                m["anc"] = [hdr_idx] + [a + hdr_idx + 1 for a in m.get("anc", [])]
                 acc.marks.append(m)
             acc.put(int.from_bytes(body, "little"), 8 * len(body))
             return
@@ -470,7 +587,7 @@ def ref_encode(ty, c, acc: Acc, strip_header: bool = False, depth: int = 0):
                 ref_encode(f, None if f[0] == "void" else next(vals), acc, depth=depth)
         else:
             tag, x = c["u"]
-            acc.marks.append({"kind": "tag", "at": acc.n, "w": tag_bits(len(ty[1])), "n": len(ty[1]), "depth": depth})
+            acc.marks.append({"kind": "tag", "at": acc.n, "w": tag_bits(len(ty[1])), "n": len(ty[1]), "depth": depth, "anc": []})
             acc.put(tag, tag_bits(len(ty[1])))
             ref_encode(ty[1][tag], x, acc, depth=depth)
         acc.align(8)
@@ -486,16 +603,21 @@ def reference_bytes(ty, c, hdr: bool) -> typing.Tuple[bytes, typing.List[dict]]:
 
 # ------------------------------------------------------------------------------------------- Python objects of the library
 
-def fname(i: int) -> str:
-    return "f%d" % i
+def fname(i: int, nm=None) -> str:
+    """Name of field i.  nm = None | {"p": prefix, "perm": permutation of 0..M-1}: ONE injective map index -> name for
+    every composite of a type tree (so two names are equal iff the indices are), different between look-alike types."""
+    if nm is None:
+        return "f%d" % i
+    perm = nm.get("perm") or []
+    return "%s%d" % (nm.get("p", "f"), perm[i] if i < len(perm) else i)
 
 
-def to_py(v):
+def to_py(v, nm=None):
     """JSON input value -> the Python object handed to pydsdl.serialize."""
     if v is None or isinstance(v, (bool, int)):
         return v
     if isinstance(v, list):
-        return [to_py(x) for x in v]
+        return [to_py(x, nm) for x in v]
     if "fl" in v:
         return float_of(v)
     if "bits" in v:
@@ -506,7 +628,7 @@ def to_py(v):
         if v.get("str"):
             return bs.decode("utf-8")
         return bs
-    return {fname(k): to_py(x) for k, x in v["d"]}
+    return {fname(k, nm): to_py(x, nm) for k, x in v["d"]}
 
 
 def model_val(v):
@@ -526,7 +648,7 @@ def model_val(v):
     return {"d": [[k, model_val(x)] for k, x in v["d"]]}
 
 
-def canon_py(ty, o):
+def canon_py(ty, o, nm=None):
     """Python object returned by pydsdl.deserialize -> canonical JSON value (NaN collapsed)."""
     k = ty[0]
     try:
@@ -547,20 +669,20 @@ def canon_py(ty, o):
                 return {"x": bytes(o).hex()} if isinstance(o, (bytes, bytearray)) else {"bad": repr(o)[:40]}
             if not isinstance(o, list):
                 return {"bad": repr(o)[:40]}
-            return [canon_py(e, x) for x in o]
+            return [canon_py(e, x, nm) for x in o]
         if k == "struct":
-            names = [fname(i) for i, f in enumerate(ty[1]) if f[0] != "void"]
+            names = [fname(i, nm) for i, f in enumerate(ty[1]) if f[0] != "void"]
             if not isinstance(o, dict) or list(o.keys()) != names:
                 return {"bad": repr(o)[:60]}
-            return {"s": [canon_py(f, o[fname(i)]) for i, f in enumerate(ty[1]) if f[0] != "void"]}
+            return {"s": [canon_py(f, o[fname(i, nm)], nm) for i, f in enumerate(ty[1]) if f[0] != "void"]}
         if k == "union":
             if not isinstance(o, dict) or len(o) != 1:
                 return {"bad": repr(o)[:60]}
             key = next(iter(o))
-            idx = [i for i in range(len(ty[1])) if fname(i) == key]
+            idx = [i for i in range(len(ty[1])) if fname(i, nm) == key]
             if not idx:
                 return {"bad": repr(o)[:60]}
-            return {"u": [idx[0], canon_py(ty[1][idx[0]], o[key])]}
+            return {"u": [idx[0], canon_py(ty[1][idx[0]], o[key], nm)]}
     except Exception as ex:  # noqa
         return {"bad": "%s: %s" % (type(ex).__name__, ex)}
     return {"bad": "type"}
@@ -575,7 +697,7 @@ def classify(ex: BaseException) -> typing.Tuple[str, str]:
     return "foreign:" + type(ex).__name__, "foreign:" + type(ex).__name__
 
 
-def impl_dec(T, ty, data: bytes, hdr: bool, with_fix: bool) -> dict:
+def impl_dec(T, ty, data: bytes, hdr: bool, with_fix: bool, nm=None) -> dict:
     P = common.import_pydsdl()
     # every accepted buffer type is exercised; the choice is a function of the data so that a case replays exactly
     buf = (bytes, bytearray, memoryview)[(len(data) + sum(data[:2])) % 3](data)
@@ -584,13 +706,13 @@ def impl_dec(T, ty, data: bytes, hdr: bool, with_fix: bool) -> dict:
     except Exception as ex:  # noqa
         r, c = classify(ex)
         return {"res": r, "soft_cls": c}
-    out = {"res": "ok", "val": canon_py(ty, o)}
+    out = {"res": "ok", "val": canon_py(ty, o, nm)}
     if with_fix:
         try:
             b2 = P.serialize(T, o, with_delimiter_header=hdr)
             o2 = P.deserialize(T, b2, with_delimiter_header=hdr)
             out["re"] = b2.hex()
-            out["soft_fix"] = canon_py(ty, o2) == out["val"]
+            out["soft_fix"] = canon_py(ty, o2, nm) == out["val"]
         except Exception as ex:  # noqa
             out["re"] = "exception"
             out["soft_fix"] = "%s: %s" % (type(ex).__name__, str(ex)[:100])
@@ -679,9 +801,10 @@ def gen_type(rng: random.Random, depth: int, budget: int, top: bool = False):
         else:
             e = gen_type(rng, depth - 1, max(64, budget // 4))
         emax = t_max(e)
-        if rng.random() < 0.15 and emax <= 16 and kind == "varr":
+        ecost = t_cost(e)
+        if rng.random() < 0.15 and emax <= 16 and ecost <= 3 and kind == "varr":
             cap = rng.choice(BOUNDARY_CAPS)
-        elif rng.random() < 0.08 and emax <= 8 and kind == "farr":
+        elif rng.random() < 0.08 and emax <= 8 and ecost <= 3 and kind == "farr":
             cap = rng.choice([255, 256, 255, 256, 65535, 65536])
         else:
             cap = max(1, min(rng.choice([1, 2, 3, 5, 8, 17, 40]), budget // max(1, emax)))
@@ -965,7 +1088,7 @@ def default_input(ty):
     return None
 
 
-def gen_dec_cases(rng: random.Random, ty, count: int) -> typing.List[dict]:
+def gen_dec_cases(rng: random.Random, ty, count: int, short_bias: bool = False) -> typing.List[dict]:
     """Byte strings for one type: random, valid representation and its prefixes, bit flips, sabotaged fields."""
     out = []
     hdr = ty[2] is not None and rng.random() < 0.5
@@ -974,17 +1097,27 @@ def gen_dec_cases(rng: random.Random, ty, count: int) -> typing.List[dict]:
     def zeros_ext():
         return [("00" * rng.choice([1, 2, 3, 8]), "zeros"), ("00" * rng.choice([16, 64, maxb % 4000 + 1]), "zeros")]
 
-    def mk(data: bytes, how: str, complete: bool = False, expect_: typing.Optional[str] = None, junk: bool = False):
+    def mk(data: bytes, how: str, complete: bool = False, expect_: typing.Optional[str] = None, junk: bool = False,
+           alts: typing.Optional[typing.List[typing.Tuple[bytes, str]]] = None):
         ext = zeros_ext()
         if junk:
-            ext.append((bytes(rng.getrandbits(8) for _ in range(rng.randint(1, 9))).hex(), "junk"))
+            ext.append((bytes(rng.choice([rng.getrandbits(8), rng.randint(1, 255)]) for _ in range(rng.randint(1, 9))).hex(), "junk"))
             ext.append(("ff" * rng.randint(1, 5), "junk"))
-        return {"op": "dec", "ty": ty, "hex": data.hex(), "hdr": hdr, "ext": [e for e, _ in ext], "extkind": [k for _, k in ext],
-                "complete": complete, "expect": expect_, "how": how}
+        c = {"op": "dec", "ty": ty, "hex": data.hex(), "hdr": hdr, "ext": [e for e, _ in ext], "extkind": [k for _, k in ext],
+             "complete": complete, "expect": expect_, "how": how}
+        if alts is not None:
+            # `closed`: the byte string is a reference encoding in which only a delimited payload was cut short (and its
+            # header adjusted), everything behind it is present: trailing bytes lie behind the end of the representation
+            c["closed"] = True
+            c["alts"] = [a.hex() for a, _ in alts]
+            c["altkind"] = [k for _, k in alts]
+        return c
 
     while len(out) < count:
         x = rng.random()
-        if x < 0.22:
+        if short_bias and rng.random() < 0.45:
+            x = 0.9  # types made for it: mostly payloads that end early
+        if x < 0.20:
             n = rng.choice([0, 1, 2, 3, rng.randint(0, min(maxb + 4, 64)), min(maxb, 300), min(maxb + 3, 300)])
             style = rng.random()
             if style < 0.6:
@@ -1001,15 +1134,15 @@ def gen_dec_cases(rng: random.Random, ty, count: int) -> typing.List[dict]:
         except Reject:
             continue
         data, marks = reference_bytes(ty, c, hdr)
-        if x < 0.40:
+        if x < 0.36:
             out.append(mk(data, "valid", complete=True, junk=True))
-        elif x < 0.62:
+        elif x < 0.54:
             if len(data) <= 24 and rng.random() < 0.3:
                 for n in range(len(data)):
                     out.append(mk(data[:n], "prefix"))
             else:
                 out.append(mk(data[: rng.randint(0, max(0, len(data) - 1))], "prefix"))
-        elif x < 0.80:
+        elif x < 0.70:
             if not data:
                 continue
             b = bytearray(data)
@@ -1017,11 +1150,89 @@ def gen_dec_cases(rng: random.Random, ty, count: int) -> typing.List[dict]:
                 i = rng.randrange(len(b) * 8)
                 b[i // 8] ^= 1 << (i % 8)
             out.append(mk(bytes(b), "bitflip"))
-        else:
+        elif x < 0.84 or not any(m["kind"] == "hdr" for m in marks):
             sab = sabotage(rng, data, marks)
             if sab is not None:
                 out.append(mk(sab[0], "sabotage:" + sab[1], expect_="rejected"))
+        else:
+            sp = short_payload(rng, data, marks)
+            if sp is not None:
+                out.append(mk(sp[0], "shortpayload:" + sp[2], junk=True, alts=[(sp[1], "zerofill")]))
     return out
+
+
+def short_payload(rng: random.Random, data: bytes, marks: typing.List[dict]):
+    """A delimited object (any depth, or the top-level one) whose header announces a payload that ends EARLY - preferably
+    in the middle of an array, right behind its length prefix - while everything behind the object stays where the
+    (shortened) header says it is.  Returns (b1, b2, where): in b2 the header is unchanged and the cut-off part of the
+    payload is zero instead, which by the zero extension rule of delimited objects denotes the same thing as b1; in b1
+    the cut is followed directly by foreign data (sibling fields, further array elements; junk at the top level)."""
+    hs = [i for i, m in enumerate(marks) if m["kind"] == "hdr" and m["size"] > 0]
+    if not hs:
+        return None
+    with_arr = [i for i in hs if any(l["kind"] == "len" and l["n"] > 0 and l["anc"] and l["anc"][-1] == i for l in marks)]
+    i = rng.choice(with_arr) if with_arr and rng.random() < 0.7 else rng.choice(hs)
+    m = marks[i]
+    start = m["at"] // 8 + 4
+    size = m["size"]
+    end = start + size
+    where = "top" if not m["anc"] and m["at"] == 0 and end == len(data) else "nested"
+    arrs = [l for l in marks if l["kind"] == "len" and l["n"] > 0 and l["anc"] and l["anc"][-1] == i]
+    cut = None
+    if arrs and rng.random() < 0.75:
+        l = rng.choice(arrs)
+        a0 = (l["at"] + l["w"] + 7) // 8 - start  # first payload byte behind the length prefix
+        a1 = a0 + (l["n"] * l["eprim"] + 7) // 8 if l["eprim"] else size
+        lo, hi = max(0, a0), min(size - 1, max(a0, a1 - 1))
+        if lo <= hi:
+            cut = rng.choice([lo, lo, rng.randint(lo, hi)])
+            where += "/array"
+    if cut is None:
+        cut = rng.choice([0, size - 1, rng.randint(0, size - 1)])
+    gone = size - cut
+    b1 = bytearray(data[:start + cut] + data[end:])
+    for j in [i] + list(m["anc"]):
+        at = marks[j]["at"] // 8
+        v = int.from_bytes(b1[at:at + 4], "little") - gone
+        if v < 0:
+            return None
+        b1[at:at + 4] = v.to_bytes(4, "little")
+    b2 = data[:start + cut] + bytes(gone) + data[end:]
+    return bytes(b1), b2, where
+
+
+def gen_blob_type(rng: random.Random):
+    """Delimited objects carrying byte / utf8 / uint8 (and other) arrays, at the top level and nested in containers with
+    fields / further elements behind them - the shapes in which an early end of the payload is followed by foreign data."""
+    def arr():
+        x = rng.random()
+        if x < 0.3:
+            e = ["byte"]
+        elif x < 0.5:
+            e = ["utf8"]
+        elif x < 0.7:
+            e = ["uint", 8, rng.choice(["sat", "trunc"])]
+        else:
+            e = rng.choice([["bool"], ["uint", 16, "sat"], ["sint", 8, "sat"], ["uint", 4, "trunc"], ["float", 32, "sat"], ["uint", 64, "sat"]])
+        kind = "varr" if (e[0] == "utf8" or rng.random() < 0.7) else "farr"
+        return [kind, e, rng.choice([1, 3, 4, 8, 8, 17, 40])]
+    fs = []
+    for _ in range(rng.choice([0, 0, 1, 2])):
+        fs.append(gen_prim(rng) if rng.random() < 0.8 else ["void", rng.choice([3, 8])])
+    fs.append(arr())
+    for _ in range(rng.choice([0, 0, 1, 2])):
+        fs.append(arr() if rng.random() < 0.4 else gen_prim(rng))
+    if rng.random() < 0.15:
+        d = ["union", [arr(), arr()] + [gen_prim(rng) for _ in range(rng.randint(0, 2))], None]
+    else:
+        d = ["struct", fs, None]
+    d[2] = inner_max(d) + 8 * rng.choice([0, 0, 1, 16])
+    ty = d
+    for _ in range(rng.choice([0, 0, 1, 1, 1, 2])):
+        ty, _ = wrap_container(rng, ty, ty)
+    if ty[0] not in ("struct", "union"):
+        ty = ["struct", [ty] + [gen_prim(rng) for _ in range(rng.randint(1, 2))], None]
+    return ty
 
 
 def sabotage(rng: random.Random, data: bytes, marks: typing.List[dict]):
@@ -1044,6 +1255,250 @@ def sabotage(rng: random.Random, data: bytes, marks: typing.List[dict]):
     mask = ((1 << m["w"]) - 1) << m["at"]
     v = (v & ~mask) | (val << m["at"])
     return v.to_bytes(len(data), "little"), m["kind"]
+
+
+# ---- look-alike types: different types that pydsdl's `==` / hash cannot tell apart, used one after another
+
+def t_nodes(ty, path=(), parent=None):
+    """(path, node, parent kind) of every node; a path is a sequence of JSON list indices from the root."""
+    yield path, ty, parent
+    k = ty[0]
+    if k in ("farr", "varr"):
+        yield from t_nodes(ty[1], path + (1,), k)
+    elif k in ("struct", "union"):
+        for i, f in enumerate(ty[1]):
+            yield from t_nodes(f, path + (1, i), k)
+
+
+def t_replace(ty, path, new):
+    ty = json.loads(json.dumps(ty))
+    if not path:
+        return json.loads(json.dumps(new))
+    cur = ty
+    for i in path[:-1]:
+        cur = cur[i]
+    cur[path[-1]] = json.loads(json.dumps(new))
+    return ty
+
+
+def max_fields(ty) -> int:
+    return max([1] + [len(t[1]) for t in t_walk(ty) if t[0] in ("struct", "union")])
+
+
+def same_width_leaves(rng: random.Random, leaf, parent):
+    """Leaves / tiny arrays with exactly the bit length of `leaf` but of another kind."""
+    k = leaf[0]
+    w = prim_bits(leaf)
+    out = []
+    if k in ("byte", "utf8"):
+        # array elements: byte <-> utf8 (variable arrays only) <-> uint8 / int8
+        out = [["uint", 8, "sat"], ["uint", 8, "trunc"], ["sint", 8, "sat"], ["byte"]] + ([["utf8"]] if parent == "varr" else [])
+    else:
+        out.append(["uint", w, rng.choice(["sat", "trunc"])])
+        if w >= 2:
+            out.append(["sint", w, "sat"])
+        if w in (16, 32, 64):
+            out.append(["float", w, rng.choice(["sat", "trunc"])])
+        if w == 1:
+            out.append(["bool"])
+        if w == 8 and parent in ("farr", "varr"):
+            out.append(["byte"])
+            if parent == "varr":
+                out.append(["utf8"])
+        if parent == "struct":
+            out.append(["void", w])
+        if parent in ("struct", "union"):
+            if w <= 64:
+                out.append(["farr", ["bool"], w])
+            if w % 2 == 0 and w >= 4:
+                out.append(["farr", ["uint", w // 2, "sat"], 2])
+            if w % 8 == 0:
+                out.append(["farr", ["byte"], w // 8])
+    out = [x for x in out if x != leaf]
+    return rng.choice(out) if out else None
+
+
+def mutate_lookalike(rng: random.Random, ty, nm):
+    """One step towards a different type with (hopefully) the same equality key: (type, names, kind of step) or None."""
+    nodes = list(t_nodes(ty))
+    comps = [(p, t) for p, t, _ in nodes if t[0] in ("struct", "union")]
+    kind = rng.choice(["declperm", "declperm", "typeperm", "leaf", "leaf", "rename", "body", "revise", "revise", "cast"])
+    M = max(max_fields(ty), len((nm or {}).get("perm") or []))
+    perm = list(((nm or {}).get("perm") or [])) + list(range(len((nm or {}).get("perm") or []), M))
+    prefix = (nm or {}).get("p", "f")
+    if kind in ("declperm", "typeperm"):
+        cands = [(p, t) for p, t in comps if len(t[1]) >= 2]
+        if not cands:
+            return None
+        p, t = rng.choice(cands)
+        n = len(t[1])
+        sigma = list(range(n))
+        if n == 2 or rng.random() < 0.4:
+            i, j = rng.sample(range(n), 2)
+            sigma[i], sigma[j] = sigma[j], sigma[i]
+        else:
+            rng.shuffle(sigma)
+        if sigma == list(range(n)):
+            return None
+        new = [t[0], [t[1][sigma[j]] for j in range(n)], t[2]]
+        if kind == "declperm":  # the names travel with the types: a pure change of the declaration order
+            perm = [perm[sigma[j]] for j in range(n)] + perm[n:]
+        return t_replace(ty, p, new), {"p": prefix, "perm": perm}, kind
+    if kind in ("leaf", "cast"):
+        leaves = [(p, t, par) for p, t, par in nodes if t[0] in PRIMS and par is not None]
+        if kind == "cast":
+            leaves = [(p, t, par) for p, t, par in leaves if t[0] in ("uint", "float")]
+        else:
+            leaves = [(p, t, par) for p, t, par in leaves if not (t[0] == "void" and par != "struct")]
+        if not leaves:
+            return None
+        p, t, par = rng.choice(leaves)
+        if kind == "cast":
+            new = [t[0], t[1], "trunc" if t[2] == "sat" else "sat"]
+        else:
+            new = same_width_leaves(rng, t, par)
+            if new is None:
+                return None
+        return t_replace(ty, p, new), nm, kind
+    if kind == "rename":
+        rng.shuffle(perm)
+        return ty, {"p": rng.choice(["f", "f", "g", "v_"]), "perm": perm}, kind
+    cands = [(p, t) for p, t in comps if t[2] is not None]
+    if not cands:
+        return None
+    p, t = rng.choice(cands)
+    if kind == "revise":
+        # another revision of a delimited composite: trailing fields / variants removed or appended, same extent
+        fs = list(t[1])
+        lo = 2 if t[0] == "union" else 0
+        if len(fs) > lo and rng.random() < 0.5:
+            return t_replace(ty, p, [t[0], fs[:rng.randint(lo, len(fs) - 1)], t[2]]), nm, kind
+        for _ in range(8):
+            more = [gen_type(rng, rng.choice([0, 0, 1]), 64) for _ in range(rng.randint(1, 2))]
+            new = [t[0], fs + more, None]
+            if inner_max(new) <= t[2] and (t[0] != "union" or tag_bits(len(new[1])) == tag_bits(len(fs))):
+                new[2] = t[2]
+                return t_replace(ty, p, new), nm, kind
+        return None
+    # body: another field list for a delimited composite of the same extent (also struct <-> union)
+    for _ in range(8):
+        new = gen_type(rng, rng.choice([1, 1, 2]), max(64, min(400, t[2])), top=True)
+        new[2] = None
+        if inner_max(new) <= t[2]:
+            new[2] = t[2]
+            return t_replace(ty, p, new), nm, kind
+    return None
+
+
+def well_formed(ty) -> bool:
+    """What the constructors demand of a (mutated) description: extents cover the body, unions have two variants, ..."""
+    for _, t, par in t_nodes(ty):
+        k = t[0]
+        if k in ("struct", "union"):
+            if k == "union" and (len(t[1]) < 2 or any(f[0] == "void" for f in t[1])):
+                return False
+            if t[2] is not None and (t[2] % 8 != 0 or inner_max([k, t[1], None]) > t[2]):
+                return False
+        elif k in ("farr", "varr"):
+            if t[2] < 1 or t[1][0] == "void" or (t[1][0] == "utf8" and k != "varr"):
+                return False
+        elif k in ("byte", "utf8") and par not in ("farr", "varr"):
+            return False
+        elif k == "void" and par not in ("struct", None):
+            return False
+    return True
+
+
+def has_kind(ty, kind: str) -> bool:
+    return any(t[0] == kind for t in t_walk(ty))
+
+
+def gen_lookalikes(rng: random.Random):
+    """2-3 different (type, names) with one equality key, and the steps that produced them."""
+    for _ in range(60):
+        base = gen_type(rng, rng.choice([1, 1, 2, 2, 3]), rng.choice([100, 300, 300, 800]), top=True)
+        if rng.random() < 0.45 and not has_kind(base, "union"):
+            continue
+        if t_max(base) > 3000 or sum(1 for _ in t_walk(base)) > 40:
+            continue
+        key = eq_key(base)
+        if key is None:
+            continue
+        out = [{"ty": base, "nm": None}]
+        muts = []
+        want = rng.choice([2, 2, 2, 3])
+        for _ in range(12):
+            if len(out) >= want:
+                break
+            src = rng.choice(out)
+            ty, nm = src["ty"], src["nm"]
+            how = []
+            ok = True
+            for _ in range(rng.choice([1, 1, 1, 2])):
+                m = mutate_lookalike(rng, ty, nm)
+                if m is None:
+                    ok = False
+                    break
+                ty, nm, h = m
+                how.append(h)
+            if not ok or not well_formed(ty) or eq_key(ty) != key:
+                continue
+            if any(o["ty"] == ty and o["nm"] == nm for o in out):
+                continue
+            out.append({"ty": ty, "nm": nm})
+            muts.append("+".join(how))
+        if len(out) >= 2:
+            return out, muts
+    return None, None
+
+
+def gen_seq_case(rng: random.Random, prop: str):
+    variants, muts = gen_lookalikes(rng)
+    if variants is None:
+        return None
+    n = len(variants)
+    nsteps = rng.randint(3, 8)
+    x = rng.random()
+    if x < 0.4:  # strict alternation
+        slots = [i % n for i in range(nsteps)]
+    elif x < 0.7:  # one type used repeatedly (warm), then the others
+        warm = rng.randint(1, 3)
+        slots = ([0] * warm + [1 + i % (n - 1) for i in range(nsteps)])[:max(nsteps, warm + 1)]
+    else:
+        slots = list(range(n)) + [rng.randrange(n) for _ in range(max(0, nsteps - n))]
+    if rng.random() < 0.5:  # which of the look-alikes comes first is arbitrary
+        order = list(range(n))
+        rng.shuffle(order)
+        slots = [order[k] for k in slots]
+    steps = []
+    for k in slots:
+        ty, nm = variants[k]["ty"], variants[k]["nm"]
+        if prop == "C07":
+            kind = "dec"
+        else:
+            kind = rng.choice(["plain", "plain", "plain", "relaxed", "relaxed", "invalid", "decvalid", "decvalid", "dec"])
+        if kind == "dec":
+            st = gen_dec_cases(rng, ty, 1)[0]
+        elif kind == "decvalid":
+            st = None
+            for _ in range(5):
+                try:
+                    c = expect(ty, gen_value(rng, ty, {"omit": 0.1, "big": 1}))
+                except Reject:
+                    continue
+                hdr = ty[2] is not None and rng.random() < 0.5
+                data, _ = reference_bytes(ty, c, hdr)
+                st = {"op": "dec", "ty": ty, "hex": data.hex(), "hdr": hdr, "ext": ["00" * rng.choice([1, 4])], "extkind": ["zeros"],
+                      "complete": True, "expect": None, "how": "valid", "want": nan_norm(ty, c)}
+                break
+            if st is None:
+                st = gen_enc_case(rng, ty, "plain")
+        else:
+            st = gen_enc_case(rng, ty, kind)
+        st["slot"] = k
+        st["nm"] = nm
+        steps.append(st)
+    return {"op": "seq", "hdr": False, "prebuild": rng.random() < 0.4, "steps": steps, "muts": muts}
 
 
 # ---- C14: revisions of a delimited structure nested in containers
@@ -1077,6 +1532,27 @@ def gen_xrev_case(rng: random.Random) -> dict:
         hdr = True
     st = {"omit": rng.choice([0.0, 0.1]), "big": 1}
     return {"op": "xrev", "tyW": tw, "tyR": tr, "val": gen_value(rng, tw, st), "hdr": hdr}
+
+
+def gen_xrev_seq_case(rng: random.Random):
+    """C14 within ONE process and under ONE name: two containers that differ only in the revision of the delimited type
+    nested in them carry the same full name and version (the old and the new checkout of a namespace side by side) and,
+    by the layout half of C14, the same bit length set - the library's `==` cannot tell them apart.  Data is written and
+    read with them in every order (old -> new, new -> old, each one its own data)."""
+    base = gen_xrev_case(rng)
+    types = [base["tyW"], base["tyR"]]
+    if t_max(types[0]) > 6000:
+        return None
+    n = rng.randint(2, 6)
+    pairs = [rng.choice([(0, 1), (1, 0), (0, 1), (1, 0), (0, 0), (1, 1)]) for _ in range(n)]
+    if all(w == r for w, r in pairs):
+        pairs[-1] = rng.choice([(0, 1), (1, 0)])
+    steps = []
+    for w, r in pairs:
+        st = {"omit": rng.choice([0.0, 0.1]), "big": 1}
+        steps.append({"op": "xrev", "tyW": types[w], "tyR": types[r], "val": gen_value(rng, types[w], st),
+                      "hdr": types[w][2] is not None and rng.random() < 0.5, "slotW": w, "slotR": r})
+    return {"op": "seq", "hdr": False, "prebuild": rng.random() < 0.4, "steps": steps, "muts": ["revise"]}
 
 
 def wrap_container(rng: random.Random, a, b):
@@ -1150,16 +1626,29 @@ class WireSuite(common.Suite):
         cases: typing.List[dict] = []
         while len(cases) < n:
             if prop == "C14":
-                cases.append(gen_xrev_case(rng))
+                c = gen_xrev_seq_case(rng) if rng.random() < 0.12 else gen_xrev_case(rng)
+                if c is not None:
+                    cases.append(c)
+                continue
+            x = rng.random()
+            if x < (0.25 if prop == "C06" else 0.05):
+                # histories over look-alike types (state kept per type across calls, keyed by the approximate equality)
+                c = gen_seq_case(rng, prop)
+                if c is not None:
+                    cases.append(c)
                 continue
             budget = rng.choice([200, 600, 2000, 2000, 6000])
-            ty = gen_type(rng, rng.choice([1, 2, 2, 3, 3, 4]), budget, top=True)
+            blob = prop == "C07" and x < 0.25
+            if blob:
+                ty = gen_blob_type(rng)
+            else:
+                ty = gen_type(rng, rng.choice([1, 2, 2, 3, 3, 4]), budget, top=True)
             if prop == "C06":
                 for _ in range(rng.randint(2, 5)):
                     kind = rng.choice(["plain", "plain", "relaxed", "relaxed", "invalid"])
                     cases.append(gen_enc_case(rng, ty, kind))
             else:
-                cases += gen_dec_cases(rng, ty, rng.randint(3, 8))
+                cases += gen_dec_cases(rng, ty, rng.randint(3, 8), short_bias=blob)
         return cases[:n]
 
     def corpus(self, prop):
@@ -1174,6 +1663,7 @@ class WireSuite(common.Suite):
                 {"op": "enc", "ty": nested, "val": [13, [-17, {"d": [[1, {"bits": 0x7BFF, "src": ["f", 0x40EFFFFFFFFFFFFF]}]]}], [1, {"d": []}, 7]],
                  "explicit": nv, "relaxed": True, "hdr": False, "valid": True},
                 {"op": "enc", "ty": big, "val": v, "explicit": v, "relaxed": False, "hdr": False, "valid": True},
+                _corpus_lookalikes(),
             ]
         if prop == "C07":
             d = ["struct", [u8, ["struct", [["uint", 16, "sat"], ["varr", ["utf8"], 10]], 256], ["uint", 5, "sat"]], None]
@@ -1181,7 +1671,7 @@ class WireSuite(common.Suite):
                 {"op": "dec", "ty": d, "hex": "0103000000aabb00" + "1f", "hdr": False, "ext": ["00", "ffee"], "extkind": ["zeros", "junk"], "complete": True, "expect": None, "how": "valid"},
                 {"op": "dec", "ty": d, "hex": "0104000000aabb00", "hdr": False, "ext": ["00", "0000"], "extkind": ["zeros", "zeros"], "complete": False, "expect": "rejected", "how": "sabotage:hdr"},
                 {"op": "dec", "ty": d, "hex": "", "hdr": False, "ext": ["00"], "extkind": ["zeros"], "complete": False, "expect": None, "how": "prefix"},
-            ]
+            ] + _corpus_short_payload()
         if prop == "C14":
             old = ["struct", [u8], 64]
             new = ["struct", [u8, ["sint", 16, "sat"], ["varr", ["byte"], 3]], 64]
@@ -1190,6 +1680,12 @@ class WireSuite(common.Suite):
             return [
                 {"op": "xrev", "tyW": ["struct", [["varr", old, 3], u8], None], "tyR": ["struct", [["varr", new, 3], u8], None], "val": v, "hdr": False},
                 {"op": "xrev", "tyW": ["struct", [["varr", new, 3], u8], None], "tyR": ["struct", [["varr", old, 3], u8], None], "val": v2, "hdr": False},
+                # the same two containers under ONE name in one process, used in every order
+                {"op": "seq", "hdr": False, "prebuild": False, "muts": ["revise"], "steps": [
+                    {"op": "xrev", "tyW": ["struct", [["varr", old, 3], u8], None], "tyR": ["struct", [["varr", new, 3], u8], None], "val": v, "hdr": False, "slotW": 0, "slotR": 1},
+                    {"op": "xrev", "tyW": ["struct", [["varr", new, 3], u8], None], "tyR": ["struct", [["varr", old, 3], u8], None], "val": v2, "hdr": False, "slotW": 1, "slotR": 0},
+                    {"op": "xrev", "tyW": ["struct", [["varr", new, 3], u8], None], "tyR": ["struct", [["varr", new, 3], u8], None], "val": v2, "hdr": False, "slotW": 1, "slotR": 1},
+                    {"op": "xrev", "tyW": ["struct", [["varr", old, 3], u8], None], "tyR": ["struct", [["varr", old, 3], u8], None], "val": v, "hdr": False, "slotW": 0, "slotR": 0}]},
             ]
         return []
 
@@ -1201,36 +1697,92 @@ class WireSuite(common.Suite):
         except Exception as ex:  # noqa: harness trouble is an outcome, never an exception
             return {"res": "harness:" + type(ex).__name__, "soft_err": str(ex)[:300]}
 
-    def _run_impl(self, case):
+    def _run_seq(self, case):
+        """A history: one pydsdl object per slot, all with the same full name and version at every position of the
+        tree (the group name is unique to this run of this case, so nothing but the case's own history can interfere);
+        every step is repeated on a fresh, uniquely named structural twin, which no per-type state can have reached."""
+        _counter[0] += 1
+        g = "K%d" % _counter[0]
+        objs: typing.Dict[int, typing.Any] = {}
+        steps = case["steps"]
+
+        def roles(st):  # (slot, type, names) of every type a step uses
+            if st["op"] == "xrev":
+                return [(st["slotW"], st["tyW"], None), (st["slotR"], st["tyR"], None)]
+            return [(st["slot"], st["ty"], st.get("nm"))]
+
+        def get(st):
+            for k, ty, nm in roles(st):
+                if k not in objs:
+                    objs[k] = build_named(ty, g, nm)
+            ts = [objs[k] for k, _, _ in roles(st)]
+            return ts[0] if len(ts) == 1 else tuple(ts)
+
+        if case.get("prebuild"):
+            for st in steps:
+                get(st)
+        outs = []
+        for i, st in enumerate(steps):
+            try:
+                out = self._run_impl(st, get(st))
+            except Exception as ex:  # noqa
+                out = {"res": "harness:" + type(ex).__name__, "soft_err": str(ex)[:300]}
+            try:
+                fresh = [build_named(ty, "%sx%d%s" % (g, i, "abc"[j]), nm) for j, (_, ty, nm) in enumerate(roles(st))]
+                twin = self._run_impl(st, fresh[0] if len(fresh) == 1 else tuple(fresh))
+            except Exception as ex:  # noqa
+                twin = {"res": "harness:" + type(ex).__name__, "soft_err": str(ex)[:300]}
+            a, b = _strip(out), _strip(twin)
+            out["soft_twin"] = None if a == b else json.dumps(b, sort_keys=True)[:400]
+            outs.append(out)
+        ks = sorted(objs)
+        tys = [ty for st in steps for _, ty, _ in roles(st)]
+        if all(_fixed_elements(ty) for ty in tys):
+            # (informative only) does the library itself regard the objects as equal?  Asked only where its set
+            # arithmetic is cheap: the remainder of a repetition of a many-valued set can take it many seconds.
+            try:
+                eq = all(objs[ks[0]] == objs[k] and hash(objs[ks[0]]) == hash(objs[k]) for k in ks[1:])
+            except Exception as ex:  # noqa
+                eq = "exception " + type(ex).__name__
+        else:
+            eq = "not-asked"
+        return {"res": "seq", "steps": outs, "soft_eq": eq}
+
+    def _run_impl(self, case, T=None):
         P = common.import_pydsdl()
         op = case["op"]
         hdr = case["hdr"]
+        nm = case.get("nm")
+        if op == "seq":
+            return self._run_seq(case)
         if op == "enc":
             ty = case["ty"]
-            T = build(ty)
+            T = build(ty) if T is None else T
             try:
-                data = P.serialize(T, to_py(case["val"]), with_delimiter_header=hdr, relaxed=case["relaxed"])
+                data = P.serialize(T, to_py(case["val"], nm), with_delimiter_header=hdr, relaxed=case["relaxed"])
             except Exception as ex:  # noqa
                 r, c = classify(ex)
                 return {"res": r, "soft_cls": c}
-            out = {"res": "ok", "hex": data.hex(), "back": impl_dec(T, ty, data, hdr, False)}
+            out = {"res": "ok", "hex": data.hex(), "back": impl_dec(T, ty, data, hdr, False, nm)}
             if case["relaxed"]:
                 try:
-                    out["soft_hex_explicit"] = P.serialize(T, to_py(case["explicit"]), with_delimiter_header=hdr).hex()
+                    out["soft_hex_explicit"] = P.serialize(T, to_py(case["explicit"], nm), with_delimiter_header=hdr).hex()
                 except Exception as ex:  # noqa
                     out["soft_hex_explicit"] = "exception " + type(ex).__name__
             out["soft_bls"] = bls_check(T, ty, hdr, 8 * len(data))
             return out
         if op == "dec":
             ty = case["ty"]
-            T = build(ty)
+            T = build(ty) if T is None else T
             data = bytes.fromhex(case["hex"])
-            out = impl_dec(T, ty, data, hdr, True)
-            out["ext"] = [impl_dec(T, ty, data + bytes.fromhex(e), hdr, False) for e in case["ext"]]
+            out = impl_dec(T, ty, data, hdr, True, nm)
+            out["ext"] = [impl_dec(T, ty, data + bytes.fromhex(e), hdr, False, nm) for e in case["ext"]]
+            if "alts" in case:
+                out["alt"] = [impl_dec(T, ty, bytes.fromhex(a), hdr, False, nm) for a in case["alts"]]
             return out
         if op == "xrev":
             tw, tr = case["tyW"], case["tyR"]
-            TW, TR = build(tw), build(tr)
+            TW, TR = (build(tw), build(tr)) if T is None else T
             try:
                 data = P.serialize(TW, to_py(case["val"]), with_delimiter_header=hdr)
             except Exception as ex:  # noqa
@@ -1243,16 +1795,29 @@ class WireSuite(common.Suite):
         return {"res": "harness:bad-op"}
 
     def model_case(self, case):
-        c = {"id": case["id"], "op": case["op"], "hdr": case["hdr"]}
-        if case["op"] == "enc":
+        c = {"id": case.get("id", 0), "op": case["op"], "hdr": case["hdr"]}
+        if case["op"] == "seq":
+            c.update(steps=[self.model_case(st) for st in case["steps"]])
+        elif case["op"] == "enc":
             c.update(ty=case["ty"], val=model_val(case["val"]), relaxed=case["relaxed"])
         elif case["op"] == "dec":
             c.update(ty=case["ty"], hex=case["hex"], ext=case["ext"])
+            if "alts" in case:
+                c.update(alts=case["alts"])
         else:
             c.update(tyW=case["tyW"], tyR=case["tyR"], val=model_val(case["val"]))
         return c
 
     def compare(self, case, impl, model, prop):
+        if case["op"] == "seq":
+            ims, mos = impl.get("steps"), model.get("steps")
+            if not isinstance(ims, list) or not isinstance(mos, list) or len(ims) != len(case["steps"]) or len(mos) != len(case["steps"]):
+                return "impl=%s model=%s" % (json.dumps(_strip(impl), sort_keys=True)[:300], json.dumps(model, sort_keys=True)[:300])
+            for i, (st, im, mo) in enumerate(zip(case["steps"], ims, mos)):
+                d = self.compare(st, im, mo, prop)
+                if d is not None:
+                    return "step %d: %s" % (i, d)
+            return None
         a, b = _strip(impl), _strip({k: v for k, v in model.items() if k != "id"})
         if "nan" in json.dumps(a.get("val", "")):  # NaN payloads do not survive a trip through a Python float
             a.pop("re", None)
@@ -1266,11 +1831,30 @@ class WireSuite(common.Suite):
         if res.startswith("harness"):
             return "harness failure: %s %s" % (res, impl.get("soft_err"))
         op = case["op"]
+        if op == "seq":
+            return self._oracle_seq(case, impl, prop)
         if op == "enc":
             return self._oracle_enc(case, impl)
         if op == "dec":
             return self._oracle_dec(case, impl)
         return self._oracle_xrev(case, impl)
+
+    def _oracle_seq(self, case, impl, prop):
+        """Every step of a history over look-alike types is judged as if it stood alone; besides, its outcome must be
+        the one a fresh, uniquely named structural twin of the type gives (the result of serialize / deserialize is a
+        function of the type's definition and the argument, not of what was done before with another type)."""
+        outs = impl.get("steps")
+        if not isinstance(outs, list) or len(outs) != len(case["steps"]):
+            return "harness failure: %s" % _short(impl)
+        for i, (st, out) in enumerate(zip(case["steps"], outs)):
+            where = " [step %d of a history over %d types sharing one name]" % (i, len(_slots(case)))
+            d = self.oracle(st, out, prop)
+            if d is not None:
+                return "look-alike types/" + d + where
+            if out.get("soft_twin") is not None:
+                return "look-alike types/outcome depends on the history: %s, but a freshly built identical type gives %s%s" % (
+                    _short(_strip(out)), _short(out["soft_twin"]), where)
+        return None
 
     def _oracle_enc(self, case, impl):
         ty, hdr = case["ty"], case["hdr"]
@@ -1300,7 +1884,7 @@ class WireSuite(common.Suite):
         return None
 
     def _oracle_dec(self, case, impl):
-        outs = [impl] + list(impl.get("ext", []))
+        outs = [impl] + list(impl.get("ext", [])) + list(impl.get("alt", []))
         for o in outs:
             if o["res"] not in ("ok", "rejected"):
                 return "deserialize raised %s (only SerDesError / ValueError are allowed)" % o["res"]
@@ -1318,11 +1902,19 @@ class WireSuite(common.Suite):
                     continue
                 if o["res"] != impl["res"] or o.get("val") != impl.get("val"):
                     return "zero extension: b decodes to %s but b + zero bytes to %s" % (_brief(impl), _brief(o))
-            elif kind == "junk" and case["complete"]:
+            elif kind == "junk" and (case["complete"] or (case.get("closed") and impl["res"] == "ok")):
                 if o["res"] != impl["res"] or o.get("val") != impl.get("val"):
                     return "implicit truncation: representation decodes to %s, with trailing bytes to %s" % (_brief(impl), _brief(o))
+        for kind, o in zip(case.get("altkind", []), impl.get("alt", [])):
+            # a delimited object ends where its header says; what it misses reads as zero, whatever follows in the buffer
+            if kind == "zerofill" and not hdr_involved:
+                if o["res"] != impl["res"] or o.get("val") != impl.get("val"):
+                    return ("delimited payload ending early: followed by foreign data it decodes to %s, with the missing part "
+                            "written out as zeros to %s" % (_brief(impl), _brief(o)))
         if case["complete"] and impl["res"] != "ok":
             return "a valid representation was rejected (%s)" % impl.get("soft_cls")
+        if case["complete"] and "want" in case and impl.get("val") != case["want"]:
+            return "the Specification's encoding of %s decodes to %s" % (_short(case["want"]), _short(impl.get("val")))
         return None
 
     def _oracle_xrev(self, case, impl):
@@ -1353,6 +1945,31 @@ class WireSuite(common.Suite):
 
     def shrink(self, case):
         op = case["op"]
+        if op == "seq":
+            steps = case["steps"]
+            if len(steps) > 1:
+                for i in range(len(steps)):
+                    c = dict(case)
+                    c["steps"] = steps[:i] + steps[i + 1:]
+                    yield c
+            for i, st in enumerate(steps):
+                n = 0
+                for cand in self.shrink(st):
+                    if cand.get("ty") != st.get("ty"):
+                        continue  # the types of a history are what makes it one: only values / bytes shrink
+                    if cand.get("tyW") != st.get("tyW") or cand.get("tyR") != st.get("tyR"):
+                        continue
+                    cand = dict(cand)
+                    for key in ("slot", "nm", "slotW", "slotR"):
+                        if key in st:
+                            cand[key] = st[key]
+                    c = dict(case)
+                    c["steps"] = steps[:i] + [cand] + steps[i + 1:]
+                    yield c
+                    n += 1
+                    if n >= 12:
+                        break
+            return
         if op == "dec":
             if case["ext"]:
                 for i in range(len(case["ext"])):
@@ -1360,7 +1977,7 @@ class WireSuite(common.Suite):
                     c["ext"] = case["ext"][:i] + case["ext"][i + 1:]
                     c["extkind"] = case["extkind"][:i] + case["extkind"][i + 1:]
                     yield c
-            if not case["complete"] and case.get("expect") is None:
+            if not case["complete"] and case.get("expect") is None and "alts" not in case:  # (alts are derived from hex)
                 h = case["hex"]
                 for n in (len(h) // 4 * 2, len(h) - 2):
                     if 0 <= n < len(h):
@@ -1404,6 +2021,31 @@ class WireSuite(common.Suite):
     def features(self, case, impl):
         op = case["op"]
         yield "op:" + op
+        if op == "seq":
+            slots = _slots(case)
+            yield "lookalike:types:%d" % len(slots)
+            yield "lookalike:steps:%s" % ("3-4" if len(case["steps"]) <= 4 else "5+")
+            yield "lookalike:library-eq-and-hash:%s" % impl.get("soft_eq")
+            yield "lookalike:" + ("objects-built-first" if case.get("prebuild") else "objects-built-at-first-use")
+            for m in case.get("muts", []):
+                for h in m.split("+"):
+                    yield "lookalike-by:" + h
+            tys = [st[k] for st in case["steps"] for k in ("ty", "tyW", "tyR") if k in st]
+            if any(t[0] == "union" for ty in tys for t in t_walk(ty)):
+                yield "lookalike:with-union"
+            if any(t[0] in ("struct", "union") and t[2] is not None for ty in tys for t in t_walk(ty)):
+                yield "lookalike:with-delimited"
+            outs = impl.get("steps") or []
+            for st, out in zip(case["steps"], outs):
+                if st["op"] == "enc":
+                    yield "lookalike-step:enc:" + ("relaxed" if st["relaxed"] else "plain" if st["valid"] else "invalid")
+                elif st["op"] == "xrev":
+                    yield "lookalike-step:xrev:" + ("own-data" if st["slotW"] == st["slotR"] else
+                                                     "appended" if t_max_fields(st["tyW"]) < t_max_fields(st["tyR"]) else "removed")
+                else:
+                    yield "lookalike-step:dec:" + st["how"].split(":")[0]
+                yield "lookalike-step-result:" + str(out.get("res"))
+            return
         tys = [case["ty"]] if op != "xrev" else [case["tyW"], case["tyR"]]
         for ty in tys:
             yield "depth:%d" % min(6, t_depth(ty))
@@ -1429,15 +2071,73 @@ class WireSuite(common.Suite):
             yield "enc-result:" + impl.get("res", "?")
         elif op == "dec":
             yield "dec:" + case["how"].split(":")[0]
+            if case["how"].startswith("shortpayload"):
+                yield "dec:" + case["how"]
+                t_arr = [t for t in t_walk(case["ty"]) if t[0] in ("farr", "varr")]
+                for e in sorted({t[1][0] if t[1][0] in ("byte", "utf8") else "uint8" if t[1][:2] == ["uint", 8] else "other" for t in t_arr}):
+                    yield "shortpayload-type-has-array-of:" + e
+                yield "shortpayload-result:" + (impl.get("soft_cls") or impl.get("res", "?"))
             yield "dec-result:" + (impl.get("soft_cls") or impl.get("res", "?"))
         else:
             yield "xrev:" + ("appended" if t_max_fields(case["tyW"]) < t_max_fields(case["tyR"]) else "removed")
             yield "xrev-result:" + impl.get("res", "?")
 
     def nontrivial(self, case, impl):
+        if case["op"] == "seq":
+            return len(_slots(case)) >= 2
         if case["op"] == "dec":
             return len(case["hex"]) > 0
         return True
+
+
+def _corpus_lookalikes() -> dict:
+    """Three unions with one name and one bit length set {16, 24, 32}: declaration order reversed (names travel with the
+    types), and same names with leaves of other kinds; used in alternation for serialize, relaxed input and deserialize."""
+    ua = ["union", [["uint", 8, "sat"], ["varr", ["byte"], 2], ["sint", 16, "sat"]], None]
+    ub = ["union", [["sint", 16, "sat"], ["varr", ["byte"], 2], ["uint", 8, "sat"]], None]
+    uc = ["union", [["uint", 8, "trunc"], ["varr", ["uint", 8, "sat"], 2], ["struct", [["sint", 16, "sat"]], None]], None]
+    nb = {"p": "f", "perm": [2, 1, 0]}
+
+    def enc(ty, nm, slot, val, explicit=None, relaxed=False):
+        return {"op": "enc", "ty": ty, "nm": nm, "slot": slot, "val": val, "explicit": explicit or val, "relaxed": relaxed, "hdr": False, "valid": True}
+
+    return {"op": "seq", "hdr": False, "prebuild": False, "muts": ["declperm", "leaf"], "steps": [
+        enc(ua, None, 0, {"d": [[0, 300]]}),
+        enc(ub, nb, 1, {"d": [[0, -2]]}),
+        enc(uc, None, 2, {"d": [[2, -3]]}, explicit={"d": [[2, {"d": [[0, -3]]}]]}, relaxed=True),
+        enc(ua, None, 0, {"d": [[2, -300]]}),
+        {"op": "dec", "ty": ub, "nm": nb, "slot": 1, "hex": "0207", "hdr": False, "ext": ["00"], "extkind": ["zeros"], "complete": True,
+         "expect": None, "how": "valid", "want": {"u": [2, 7]}},
+        enc(uc, None, 2, {"d": [[1, [1, 2]]]}),
+        enc(ub, nb, 1, {"d": [[1, {"x": "a1b2", "str": False}]]}),
+    ]}
+
+
+def _corpus_short_payload() -> typing.List[dict]:
+    """A delimited object whose header ends the payload inside a byte array, followed by a sibling field / by junk."""
+    d = ["struct", [["varr", ["byte"], 8], ["uint", 8, "sat"]], 128]
+    outer = ["struct", [d, ["uint", 16, "sat"]], None]
+    return [
+        {"op": "dec", "ty": outer, "hex": "02000000" "030b" "efbe", "hdr": False, "ext": ["00", "ffee"], "extkind": ["zeros", "junk"], "complete": False,
+         "closed": True, "expect": None, "how": "shortpayload:nested/array", "alts": ["05000000" "030b000000" "efbe"], "altkind": ["zerofill"]},
+        {"op": "dec", "ty": d, "hex": "01000000" "03", "hdr": True, "ext": ["0000", "aabbcc"], "extkind": ["zeros", "junk"], "complete": False,
+         "closed": True, "expect": None, "how": "shortpayload:top/array", "alts": ["05000000" "0300000000"], "altkind": ["zerofill"]},
+    ]
+
+
+def _fixed_elements(ty) -> bool:
+    """Every array of the type has elements of one fixed bit length."""
+    for t in t_walk(ty):
+        if t[0] in ("farr", "varr"):
+            e = t[1]
+            if not (e[0] in PRIMS or (e[0] in ("struct", "union") and e[2] is None and e[0] == "struct"
+                                      and all(f[0] in PRIMS for f in e[1]))):
+                return False
+    return True
+
+
+def _slots(case) -> set:
+    return {st[k] for st in case["steps"] for k in ("slot", "slotW", "slotR") if k in st}
 
 
 def t_max_fields(ty) -> int:
